@@ -229,16 +229,49 @@ func checkDartImports(w *World, r *Result) {
 				}
 				return true
 			})
-			if holder != nil {
-				if returned[holder] {
-					flows = true
+			if holder != nil && returned[holder] {
+				flows = true
+			}
+			// appended to (or stored at the loop index of a pre-sized) returned slice, directly or through the holder
+			ast.Inspect(fi.Decl.Body, func(y ast.Node) bool {
+				rs, ok := y.(*ast.RangeStmt)
+				if !ok {
+					return true
 				}
-				for _, a := range appendStmts(info, fi.Decl.Body, "") {
-					if id := identOf(a.Lhs[0]); id != nil && returned[objOf(info, id)] {
-						for _, arg := range a.Rhs[0].(*ast.CallExpr).Args[1:] {
-							if aid := identOf(arg); aid != nil && objOf(info, aid) == holder {
-								flows = true
-							}
+				for _, a := range accumStmts(info, fi.Decl, rs) {
+					var tgt types.Object
+					switch l := a.stmt.Lhs[0].(type) {
+					case *ast.IndexExpr:
+						if id := identOf(l.X); id != nil {
+							tgt = objOf(info, id)
+						}
+					default:
+						if id := identOf(l); id != nil {
+							tgt = objOf(info, id)
+						}
+					}
+					if tgt == nil || !returned[tgt] {
+						continue
+					}
+					for _, arg := range a.values {
+						if aid := identOf(arg); aid != nil && holder != nil && objOf(info, aid) == holder {
+							flows = true
+						}
+						if ast.Unparen(arg) == ast.Expr(call) {
+							flows = true
+						}
+					}
+				}
+				return true
+			})
+			for _, a := range appendStmts(info, fi.Decl.Body, "") {
+				if id := identOf(a.Lhs[0]); id != nil && returned[objOf(info, id)] {
+					for _, arg := range a.Rhs[0].(*ast.CallExpr).Args[1:] {
+						if aid := identOf(arg); aid != nil && holder != nil && objOf(info, aid) == holder {
+							flows = true
+						}
+						if ast.Unparen(arg) == ast.Expr(call) {
+							flows = true
 						}
 					}
 				}
@@ -291,29 +324,36 @@ func checkDartImports(w *World, r *Result) {
 	}
 	// emission skips exactly the file itself
 	gf := w.MustFunc("generator/dart.Generate")
-	finfo := gf.Pkg.TypesInfo
+	_ = gf.Pkg.TypesInfo
 	selfSkip := false
-	ast.Inspect(gf.Decl.Body, func(x ast.Node) bool {
-		rs, ok := x.(*ast.RangeStmt)
-		if !ok || !strings.HasSuffix(es(rs.X), ".imports") {
+	for _, cf := range calleeClosure(w, gf, 2) {
+		cinfo := cf.Pkg.TypesInfo
+		ast.Inspect(cf.Decl.Body, func(x ast.Node) bool {
+			rs, ok := x.(*ast.RangeStmt)
+			if !ok || !strings.HasSuffix(es(rs.X), ".imports") || identOf(rs.Key) == nil {
+				return true
+			}
+			key := objOf(cinfo, identOf(rs.Key))
+			for _, a := range appendStmts(cinfo, rs.Body, "") {
+				var inner []pcond
+				for _, c := range pathCondsNoLoop(cf, a) {
+					if c.expr != nil && c.expr.Pos() >= rs.Body.Pos() {
+						inner = append(inner, c)
+					}
+				}
+				if len(inner) == 1 {
+					// the one condition: the imported file differs from a file name (the loop key against an identifier)
+					if be, ok := inner[0].expr.(*ast.BinaryExpr); ok && ((be.Op == token.NEQ && inner[0].truth) || (be.Op == token.EQL && !inner[0].truth)) {
+						kx, ky := identOf(be.X), identOf(be.Y)
+						if kx != nil && ky != nil && (objOf(cinfo, kx) == key) != (objOf(cinfo, ky) == key) {
+							selfSkip = true
+						}
+					}
+				}
+			}
 			return true
-		}
-		for _, a := range appendStmts(finfo, rs.Body, "") {
-			conds := pathCondsNoLoop(gf, a)
-			var inner []pcond
-			for _, c := range conds {
-				if c.expr != nil && c.expr.Pos() >= rs.Body.Pos() {
-					inner = append(inner, c)
-				}
-			}
-			if len(inner) == 1 {
-				if be, ok := inner[0].expr.(*ast.BinaryExpr); ok && be.Op == token.NEQ && inner[0].truth {
-					selfSkip = true
-				}
-			}
-		}
-		return true
-	})
+		})
+	}
 	r.cond(selfSkip, "FLW-C06b", gf.Name, "an import is emitted for every recorded file except the file itself", fnPos(w, gf), "`if imp != fileName`", "the import emission does not skip exactly the file itself (self-import, or dropped imports)")
 }
 
@@ -445,11 +485,13 @@ func checkDartEnumAndImplements(w *World, r *Result) {
 			return true
 		}
 		v := info.Defs[identOf(rs.Value)]
-		g := leadingGuards(info, rs.Body, map[types.Object]string{v: "$u"})
-		apps := appendStmts(info, rs.Body, "")
-		if len(g) == 1 && g[0] == "!($u.IsExported())" && len(apps) == 1 {
-			if render(info, apps[0].Rhs[0].(*ast.CallExpr).Args[1], map[types.Object]string{v: "$u"}) == "an.LocalName($u)" {
-				good = true
+		sub := map[types.Object]string{v: "$u"}
+		apps := accumStmts(info, cs.Decl, rs)
+		if len(apps) == 1 && !apps[0].sized && len(apps[0].values) == 1 {
+			if g := reachConds(info, cs.Decl, rs, apps[0].stmt, sub); len(g) == 1 && g[0] == "$u.IsExported()" {
+				if render(info, apps[0].values[0], sub) == "an.LocalName($u)" {
+					good = true
+				}
 			}
 		}
 		return true
